@@ -21,6 +21,8 @@ inductive Res
 inductive Svc
   | answer (latency : Nat)
   | fail (latency : Nat)
+  | failCtx (latency : Nat)   -- fails with an error that wraps a context error although every context is alive
+                              -- (the client's own per-request timeout)
   | hang
   deriving DecidableEq, Repr
 
@@ -28,9 +30,15 @@ structure Mode where
   perCaller : Bool     -- the safety limit bounds the caller (true) or each flight (false)
   select : Bool        -- a waiter leaves when its own context ends (true) or blocks until the flight ends
   fallback : Nat       -- the safety limit in ms
+  ownFailureIsFailure : Bool := true
+                       -- a request that failed with a context-flavoured error while its governing context
+                       -- is alive is reported as a failed lookup (true, the code after the repair of D8) or
+                       -- taken for somebody else's cancellation and retried (false, the code before)
 
 def Mode.repaired : Mode := { perCaller := true, select := true, fallback := 300000 }
 def Mode.original : Mode := { perCaller := false, select := false, fallback := 300000 }
+/-- the code between the repairs of D6 and D8 -/
+def Mode.beforeD8 : Mode := { perCaller := true, select := true, fallback := 300000, ownFailureIsFailure := false }
 
 structure Caller where
   start : Nat
@@ -83,6 +91,7 @@ def startFlight (m : Mode) (i : Nat) (c : Caller) (t : Nat) (script : List Svc) 
   let natural : Option (Nat × Res) := match b with
     | .answer l => some (t + l, .handle)
     | .fail l => some (t + l, .failed)
+    | .failCtx l => some (t + l, if m.ownFailureIsFailure then .failed else .ctx)
     | .hang => none
   let f : Flight := match natural, ctxEnd with
     | some (e, r), some ce => if e ≤ ce then { owner := i, ends := e, res := r } else { owner := i, ends := ce, res := .ctx }
